@@ -21,23 +21,57 @@ CLAIM = {
              "C14_syntax_char — for UTF-8 text the annotated span is exactly the bytes of the character parsing stopped in front of, of any "
              "width, and both line numbers count the '\\n' characters before; C14_file — the "
              "error context of a rejected entry carries the path and context delivered with that very entry (index = first failing "
-             "entry of `process`). The parser-side facts (tracked spans lie inside the entry span, spans are valid slices, the "
-             "positions handed to ParseError::new) are hypotheses of the theorems and are checked on the real parser for every "
-             "generated case. Correspondence on every run: files with exactly one invalid entry (9 syntactic and 12 book-keeping / alias / "
+             "entry of `process`). Those five theorems take the parser-side facts (tracked spans lie inside the entry span, spans "
+             "are valid slices, the positions handed to ParseError::new) as hypotheses. They are discharged FOR EVERY TEXT inside the "
+             "parser model: C14_syntax_text — whenever parse_ledger(t) fails, t = pre ++ rest with pre ending at the last delivered "
+             "entry (the iterator's checkpoint, taken before the separator), vertical_spaces succeeds on rest (it never fails) and "
+             "leaves the non-empty entry text on which parse_ledger_entry fails at pos; checkpoint <= entry start <= failure position "
+             "<= |t|, line_start = 1 + LF bytes before the checkpoint = 1 + '\\n' characters of pre, the error span starts exactly at "
+             "the failure position and stays inside the file, the byte-level ParseError::new is defined (no assert, search "
+             "terminates) and equals the parser model's error, the shown line is the failure position's line and the bad entry's "
+             "first line lies between line_start and it; C14_entry_text — for every entry delivered by parse_ledger::<Tracking>(t) "
+             "(also before a later syntax error) the entry span is a valid slice, every tracked span (posting, account, amount, cost, "
+             "lot price, balance: the six decorate_parser sites, modelled in Model/ParseSpans.lean) lies inside it on char "
+             "boundaries, line_start = 1 + '\\n' characters in front of the entry, and all conclusions of C14_bookkeep hold for any "
+             "error whose spans are tracked spans of that entry; C14_entry_text_txn — the same for the spans book_keeping.rs "
+             "actually picks (SpansFrom: posting spans for UndeduciblePostingAmount, balance+account of one posting for "
+             "BalanceAssertionFailure, the posting's cost or lot price for the exchange errors); parseLedgerRunT_erase — the "
+             "Tracking parser model returns the same entries, entry spans and ParseError as the plain one for every text; "
+             "C14_file_text — C14_file for triples whose context is a span parse_ledger delivered; C14_undeducible_text — end to end, "
+             "nothing assumed: if parse_ledger::<Tracking>(t) = es and process rejects entry i with UndeduciblePostingAmount(a, b) "
+             "then entry i is a transaction, a < b index two of its postings, and the two annotations are exactly the slices of "
+             "those postings inside the entry text, each shown at the file line of the posting's first byte (the book-keeping model "
+             "raises that error only for the second amount-less posting: stepEntry_err_U). What is still not proved in "
+             "Lean: that the parser models are the Rust parser (differential check on every run: entry spans, ALL tracked spans of "
+             "every entry in Debug order, and the ParseError of the real parse_ledger::<Tracking> against Model/ParseSpans.lean on every "
+             "generated file) and that book_keeping.rs takes its spans from the entry it processes (checked per case: the spans of "
+             "the real error are the SpansFrom spans of the model's entry). Correspondence on every run: files with exactly one invalid entry (9 syntactic and 12 book-keeping / alias / "
              "inference defect classes) after arbitrary valid content (blank and whitespace-only lines, CRLF, multi-byte text, comments, "
              "declarations, transactions), in the root or an included file (child, nested, glob), in-process on the FakeFileSystem and "
              "through `okane balance` on real files; the model's line_start / text / annotation lines / error span are compared with the "
-             "implementation's values; the oracle (independent of the model) parses ` --> path:line:col` and the gutter numbers out of "
+             "implementation's values; every file of every case (with and without the invalid entry) is also parsed by the real "
+             "Tracking parser and by the span-tracking parser model and all spans are compared; the oracle (independent of the model) parses ` --> path:line:col` and the gutter numbers out of "
              "the rendered diagnostic and requires the path to be the file holding the bad entry and every shown line number to lie "
              "within that entry's lines (syntax: from the entry's first line to the defect line)."),
     "note": ("annotate_snippets rendering is not modelled (its output is parsed back); that the loader passes the path of the file being "
-             "read is stated over the delivered (path, context, entry) triples and checked by the include streams; the parser model (C05) "
-             "has to supply the hypotheses about spans."),
+             "read is stated over the delivered (path, context, entry) triples and checked by the include streams; the span facts are "
+             "theorems about the parser models (C14_syntax_text, C14_entry_text), whose agreement with the Rust parser is the "
+             "correspondence check of C05/C06 and of the tracked-span stream here."),
     "design_ref": "DESIGN.md section 6, C14; Appendix A (error offsets, line_start at the checkpoint before the separator)",
 }
 
 THEOREMS = ["Okane.Diag.C14_line", "Okane.Diag.C14_line_chars", "Okane.Diag.computeLineNumber_out_of_range",
-            "Okane.Diag.C14_bookkeep", "Okane.Diag.C14_syntax", "Okane.Diag.C14_syntax_char", "Okane.Diag.C14_file"]
+            "Okane.Diag.C14_bookkeep", "Okane.Diag.C14_syntax", "Okane.Diag.C14_syntax_char", "Okane.Diag.C14_file",
+            # for every text, no parser-side hypothesis left (parser model, Model/Parse.lean + Model/ParseSpans.lean)
+            "Okane.Diag.C14_syntax_text", "Okane.Diag.C14_entry_text", "Okane.Diag.C14_entry_text_txn",
+            "Okane.Diag.C14_entry_text_plain", "Okane.Diag.C14_file_text", "Okane.Diag.C14_undeducible_text",
+            "Okane.C14Book.stepEntry_err_U", "Okane.C14Book.parseLedgerEntryT_other", "Okane.C14Book.delivered_txn",
+            "Okane.Parse.parsedIter_run", "Okane.Parse.verticalSpaces_ok", "Okane.Parse.parseLedger_error_structure",
+            "Okane.Parse.parseLedgerRun_delivered",
+            "Okane.ParseSpans.sim_parseLedgerEntry", "Okane.ParseSpans.parseLedgerRunT_erase",
+            "Okane.ParseSpans.parseLedgerT_erase", "Okane.ParseSpans.within_parseLedgerEntry",
+            "Okane.ParseSpans.parseLedgerRunT_tracked", "Okane.ParseSpans.parseLedgerRunT_delivered",
+            "Okane.ParseSpans.SpansFrom.mem", "Okane.ParseSpans.tracked_within"]
 
 ANSI = re.compile(r"\x1b\[[0-9;]*m")
 
@@ -333,6 +367,60 @@ def fields(rec):
     return d
 
 
+def parse_span_record(rec):
+    """`<id> end=.. entries=s..t:[l=]a..b,..|..` -> (end, [((s,t), [(label or None,(a,b))..])..]) or None"""
+    f = fields(rec)
+    if "end" not in f or "entries" not in f:
+        return None
+    out = []
+    if f["entries"] != "-":
+        for e in f["entries"].split("|"):
+            head, body = e.split(":", 1)
+            try:
+                st = tuple(int(x) for x in head.split(".."))
+            except ValueError:
+                return None
+            sp = []
+            if body != "-":
+                for w in body.split(","):
+                    lab = None
+                    if "=" in w:
+                        lab, w = w.split("=", 1)
+                    try:
+                        a, b = [int(x) for x in w.split("..")]
+                    except ValueError:
+                        return None
+                    sp.append((lab, (a, b)))
+            out.append((st, sp))
+    return f["end"], out
+
+
+def spans_from(kind, tspans, labelled):
+    """SpansFrom of Lemmas/C14TextSpans.lean on the model's labelled spans of one entry: are `tspans` (print order) spans
+    book_keeping.rs may attach to an error of this kind?  Returns None or a message."""
+    posts = []      # per posting: dict label -> span
+    cur = {}
+    for lab, sp in labelled:
+        cur[lab] = sp
+        if lab == "p":
+            posts.append(cur)
+            cur = {}
+    if kind == "undeducible":
+        ps = [p["p"] for p in posts]
+        if len(tspans) != 2 or tspans[0] not in ps or tspans[1] not in ps or tspans[0] == tspans[1]:
+            return "spans %s are not two distinct posting spans %s" % (tspans, ps)
+    elif kind == "assertion":
+        if not any(len(tspans) == 2 and p.get("b") == tspans[0] and p.get("a") == tspans[1] for p in posts):
+            return "spans %s are not (balance, account) of one posting" % (tspans,)
+    elif kind in ("zeroAmountWithExchange", "zeroExchangeRate"):
+        if not any(len(tspans) == 1 and tspans[0] in (p.get("c"), p.get("l")) for p in posts):
+            return "span %s is not the cost or lot price of a posting" % (tspans,)
+    elif kind == "exchangeWithAmountCommodity":
+        if not any(len(tspans) == 2 and p.get("v") == tspans[0] and tspans[1] in (p.get("c"), p.get("l")) for p in posts):
+            return "spans %s are not (amount, cost or lot price) of one posting" % (tspans,)
+    return None
+
+
 KIND_MAP = {"UndeduciblePostingAmount": "undeducible", "BalanceAssertionFailure": "assertion",
             "ZeroAmountWithExchange": "zeroAmountWithExchange", "ZeroExchangeRate": "zeroExchangeRate",
             "ExchangeWithAmountCommodity": "exchangeWithAmountCommodity"}
@@ -349,8 +437,10 @@ def run(chk):
                 "tree; non-trivial when something precedes the invalid entry or it sits in an included file.")
     chk.assumptions = [
         "annotate_snippets rendering is parsed back, not modelled",
-        "the parser supplies the span facts (tracked spans inside the entry span, valid slices, checkpoint <= failure position): "
-        "hypotheses of the theorems, checked per case on the real parser's values",
+        "the span facts (tracked spans inside the entry span, valid slices, checkpoint <= failure position) are proved for the parser "
+        "models (Model/Parse.lean, Model/ParseSpans.lean) for every text; that these models are the Rust parser is checked "
+        "differentially (all entry spans, tracked spans and ParseErrors of every generated file), not proved",
+        "book_keeping.rs builds its errors from spans of the transaction it is processing (SpansFrom): read off the code, checked per case",
     ]
     if not standard_prologue(chk, THEOREMS):
         return
@@ -379,6 +469,48 @@ def run(chk):
     impl_clean = G.run_resilient(HX, ["c14", "inproc"], clean_lines)
     chk.streams["one-bad-entry/fake-fs"] = len(lines)
     chk.streams["bad-entry-removed/fake-fs"] = len(clean_lines)
+
+    # every file text of every case: real Tracking parser vs the span-tracking parser model
+    span_texts = sorted({t for c in cases for t in list(c.files.values()) + list(c.clean.values())})
+    span_ix = {t: i for i, t in enumerate(span_texts)}
+    span_impl = G.run_resilient(HX, ["c14", "spans"], ["s%d %s" % (i, enc(t)) for i, t in enumerate(span_texts)])
+    span_model = run_sharded(DRV, ["c14"], ["s%d spans %s" % (i, enc(t)) for i, t in enumerate(span_texts)], shards=G.JOBS)
+    chk.streams["tracked-spans/parser-vs-model"] = len(span_texts)
+    span_parsed = {}
+    for i, t in enumerate(span_texts):
+        ri = parse_span_record(span_impl[i]) if i < len(span_impl) else None
+        rm = parse_span_record(span_model[i]) if i < len(span_model) else None
+        span_parsed[t] = rm
+        chk.traces += 1
+        bad = None
+        if ri is None or rm is None:
+            bad = "undecodable record: impl %r, model %r" % (span_impl[i][:200] if i < len(span_impl) else None,
+                                                            span_model[i][:200] if i < len(span_model) else None)
+        elif ri[0] != rm[0]:
+            bad = "ending: impl %s, model %s" % (ri[0], rm[0])
+        elif [e[0] for e in ri[1]] != [e[0] for e in rm[1]]:
+            bad = "entry spans: impl %s, model %s" % ([e[0] for e in ri[1]], [e[0] for e in rm[1]])
+        else:
+            for (st, si), (_, sm) in zip(ri[1], rm[1]):
+                if [x[1] for x in si] != [x[1] for x in sm]:
+                    bad = "tracked spans of entry %s: impl %s, model %s" % (st, [x[1] for x in si], sm)
+                    break
+                # the statement of parseLedgerRunT_tracked on the real parser's values
+                for _, (a, b) in si:
+                    if not (st[0] <= a <= b <= st[1]):
+                        chk.oracle_failures += 1
+                        chk.violation("tracked span %d..%d outside its entry span %d..%d" % (a, b, st[0], st[1]),
+                                      {"text": t, "rerun": "echo 's0 %s' | %s c14 spans" % (enc(t), HX)})
+                chk.count("spans:entries-compared")
+                chk.count("spans:tracked-spans-compared", len(si))
+        if bad:
+            chk.disagreements += 1
+            chk.violation("tracked-span model and parser disagree: " + bad,
+                          {"text": t, "impl": span_impl[i] if i < len(span_impl) else None,
+                           "model": span_model[i] if i < len(span_model) else None,
+                           "rerun": "echo 's0 %s' | %s c14 spans" % (enc(t), HX)}, no_failing_input=True, tag="corr")
+        else:
+            chk.count("spans:text-agrees" + (":with-error" if ri[0] != "done" else ""))
 
     # real file system: `okane balance` stderr
     real_every = 3 if quick else 10
@@ -487,10 +619,24 @@ def run(chk):
                         bad = "gutter %s outside the model's entry lines %s..%s" % (gutter, m["ls"], m["last"])
                     # the hypotheses of C14_bookkeep on the real parser's spans
                     a, b = [int(x) for x in f["pspan"].split("..")]
+                    tsp = []
                     for sp in (f.get("tspans", "-").split(";") if f.get("tspans", "-") != "-" else []):
                         x, y = [int(v) for v in sp.split("..")]
+                        tsp.append((x, y))
                         if not (a <= x <= y <= b):
                             bad = "tracked span %s not inside the entry span %s" % (sp, f["pspan"])
+                    # the hypothesis SpansFrom of C14_entry_text_txn: the error's spans are the spans book_keeping.rs may pick
+                    # from the entry the parser model delivers with this very ParsedContext span
+                    k = KIND_MAP.get(f.get("kind"))
+                    path = dec(f["path"])
+                    rm = span_parsed.get(c.files.get(path[3:])) if path.startswith("/r/") else None
+                    if bad is None and k and rm is not None:
+                        ent = [sm for st, sm in rm[1] if st == (a, b)]
+                        if len(ent) != 1:
+                            bad = "the parser model delivers no entry with span %s" % f["pspan"]
+                        else:
+                            bad = spans_from(k, tsp, ent[0])
+                            chk.count("model:SpansFrom-checked:" + k)
             else:
                 if m.get("span") != f.get("espan"):
                     bad = "error span: impl %s, model %s" % (f.get("espan"), m.get("span"))
